@@ -52,6 +52,11 @@ func Recover(sig, digest []byte) []byte {
 	if len(sig) != 65 {
 		return nil
 	}
+	// Ethereum signatures carry the recovery id as 27+recid; btcec's 31..34 ("compressed key" flag)
+	// are alternative encodings of the same signature and are not signatures of the owner's format.
+	if sig[64] > 30 {
+		return nil
+	}
 	bs := make([]byte, 65)
 	bs[0] = sig[64]
 	copy(bs[1:], sig[:64])
